@@ -95,7 +95,38 @@ func (s *vfHookStmt) Exec(args []driver.Value) (driver.Result, error) {
 
 func (s *vfHookStmt) Query(args []driver.Value) (driver.Rows, error) {
 	vfSched.hook(s.q)
-	return s.Stmt.Query(args)
+	rows, err := s.Stmt.Query(args)
+	if err == nil && vfClassify(s.q) == "load" {
+		return &vfHookRows{Rows: rows}, nil
+	}
+	return rows, err
+}
+
+// vfPostLoad (guarded by vfSched.mu): while the scheduler is enabled, a request is parked a second
+// time when its profile load has RETURNED (the result set is read and closed, nothing is held in the
+// database any more) — event kind "loaded". With it a request has a yield point on both sides of
+// whatever it does between reading the profile and its next storage statement.
+var vfPostLoad bool
+
+type vfHookRows struct {
+	driver.Rows
+	once sync.Once
+}
+
+func (r *vfHookRows) Close() error {
+	err := r.Rows.Close()
+	r.once.Do(func() {
+		vfSched.mu.Lock()
+		on := vfSched.enabled && vfPostLoad
+		vfSched.mu.Unlock()
+		if !on {
+			return
+		}
+		ev := &vfDBEvent{kind: "loaded", release: make(chan struct{})}
+		vfSched.arrivals <- ev
+		<-ev.release
+	})
+	return err
 }
 
 var vfHookRegisterOnce sync.Once
